@@ -670,8 +670,28 @@ seq:
 
 // ------------------------------------------------------------------------------------ C16
 
+// vfMsgKVBytes: key + value bytes of message i as the producer has to send it, i.e. after the "pad" interceptors of the
+// case (which enlarge every non-nil value by a fixed trailer each).
 func vfMsgKVBytes(i int, c *vfProdCase) int {
-	return len(vfMsgKey(i, &c.Msgs[i])) + len(vfMsgValue(i, &c.Msgs[i]))
+	n := len(vfMsgKey(i, &c.Msgs[i])) + len(vfMsgValue(i, &c.Msgs[i]))
+	if vfMsgValue(i, &c.Msgs[i]) != nil {
+		for _, k := range c.Conf.Interceptors {
+			if k == "pad" {
+				n += len(vfPadBytes)
+			}
+		}
+	}
+	return n
+}
+
+// vfOnlyPads: the case has no interceptors other than "pad" (whose effect vfMsgKVBytes accounts for).
+func vfOnlyPads(c *vfProdCase) bool {
+	for _, k := range c.Conf.Interceptors {
+		if k != "pad" {
+			return false
+		}
+	}
+	return true
 }
 
 func vfOracleC16(run *vfProdRun) *vfcore.Failure {
@@ -747,7 +767,7 @@ func vfOracleC16(run *vfProdRun) *vfcore.Failure {
 		maxReqLimit = int64(c.Conf.MaxRequestSize)
 	}
 	for _, idx := range run.submitted {
-		if o, ok := outOf[idx]; calm && ok && !o.Ok && len(c.Conf.Interceptors) == 0 && !run.closedEarly {
+		if o, ok := outOf[idx]; calm && ok && !o.Ok && vfOnlyPads(c) && !run.closedEarly {
 			kv := int64(vfMsgKVBytes(idx, c))
 			if kv+200 <= int64(c.Conf.MaxMessageBytes) && 2*(kv+1024) <= maxReqLimit && !strings.Contains(o.Err, "headers requires") {
 				return run.fail("in-limits-message-failed", "message %d (%d key+value bytes; MaxMessageBytes=%d, MaxRequestSize=%d) failed with %q although nothing but latency happened", idx, kv, c.Conf.MaxMessageBytes, maxReqLimit, o.Err)
@@ -762,14 +782,14 @@ func vfOracleC16(run *vfProdRun) *vfcore.Failure {
 				over += len(h.Key) + len(h.Value) + 10
 			}
 		}
-		if o, ok := outOf[idx]; ok && !o.Ok && strings.Contains(o.Err, "Message was too large") && vfMsgKVBytes(idx, c)+over <= c.Conf.MaxMessageBytes && len(c.Conf.Interceptors) == 0 && !sent[idx] {
+		if o, ok := outOf[idx]; ok && !o.Ok && strings.Contains(o.Err, "Message was too large") && vfMsgKVBytes(idx, c)+over <= c.Conf.MaxMessageBytes && vfOnlyPads(c) && !sent[idx] {
 			return run.fail("undersize-rejected", "message %d (%d key+value bytes, %d with the documented overhead) was rejected as too large for MaxMessageBytes=%d", idx, vfMsgKVBytes(idx, c), vfMsgKVBytes(idx, c)+over, c.Conf.MaxMessageBytes)
 		}
 		if vfMsgKVBytes(idx, c) > c.Conf.MaxMessageBytes {
 			if sent[idx] {
 				return run.fail("oversize-sent", "message %d has %d key+value bytes > MaxMessageBytes=%d but was sent to a broker", idx, vfMsgKVBytes(idx, c), c.Conf.MaxMessageBytes)
 			}
-			if o, ok := outOf[idx]; ok && len(c.Conf.Interceptors) == 0 {
+			if o, ok := outOf[idx]; ok && vfOnlyPads(c) {
 				if o.Ok {
 					return run.fail("oversize-succeeded", "message %d exceeds MaxMessageBytes but was reported successful", idx)
 				}
